@@ -55,6 +55,8 @@ EXTRA = {"</rt>": ["e:rt:-"], "<q:a>": ["s:a:q"], "</q:a>": ["e:a:q"], "</doc>":
          "wscomment": ["x:-", "d:32,32", "x:1"], "cdata": ["x:-", "d:100", "x:2"], "y": ["d:121,32"], "ff": ["d:12"], "nbsp": ["d:160"],
          # nodes the parser can leave EMPTY (<!---->, <![CDATA[]]> inside <pre>): falsy objects in the links
          "emptycomment": ["x:-", "d:-", "x:1"], "emptycdata": ["x:-", "d:-", "x:2"], "emptyflush": ["d:-", "x:-"],
+         # characters that are whitespace to str.isspace() / string.whitespace but NOT in BeautifulSoup.ASCII_SPACES: never collapsed
+         "vt": ["d:11"], "vtsp": ["d:11,32"], "fs": ["d:28,10"], "nel": ["d:133"], "lsep": ["d:8232,32"], "emsp": ["d:8195"],
          # names are compared exactly as the builder sends them (a builder that does not case-fold may send `Pre`, `SCRIPT`):
          # they are NOT the configured `pre` / `script`
          "<Pre>": ["s:Pre:-"], "</Pre>": ["e:Pre:-"], "<SCRIPT>": ["s:SCRIPT:-"], "</SCRIPT>": ["e:SCRIPT:-"], "<A>": ["s:A:-"], "</A>": ["e:A:-"]}
